@@ -81,10 +81,26 @@ func mkOpts(c *sim.Ctx, ihl int) []byte {
 	return b
 }
 
+// keyAddr gives the addresses of key k. Odd keys are the reverse direction
+// of the key before them (same two hosts, and the same identification, see
+// keyID): the answer to a fragmented request is often fragmented too.
+func keyAddr(k int, dst bool) net.IP {
+	a, b := net.IP{10, 0, 0, byte(1 + (k/2)%3)}, net.IP{10, 9, 0, byte(1 + (k/2)/3)}
+	if k%2 == 1 {
+		a, b = b, a
+	}
+	if dst {
+		return b
+	}
+	return a
+}
+
+func keyID(k int) uint16 { return uint16(100 + k/2) }
+
 func ip4Layer(f *frag, k int, id uint16) *layers.IPv4 {
 	ip := &layers.IPv4{
 		Version: 4, IHL: uint8(f.ihl), TOS: 3, Id: id, TTL: 61, Protocol: layers.IPProtocolUDP,
-		SrcIP: net.IP{10, 0, 0, byte(1 + k%3)}, DstIP: net.IP{10, 9, 0, byte(1 + k/3)},
+		SrcIP: keyAddr(k, false), DstIP: keyAddr(k, true),
 		FragOffset: uint16(f.off / 8),
 	}
 	if f.more {
@@ -327,7 +343,7 @@ func simC13v4(c *sim.Ctx) {
 			continue
 		}
 		f := e.f
-		ip := ip4Layer(f, f.key, uint16(100+f.key))
+		ip := ip4Layer(f, f.key, keyID(f.key))
 		c.Ev("frag", int64(f.key), int64(f.dg), int64(f.off), int64(len(f.payload)), b2i(f.more), int64(f.ihl), b2i(f.whole), e.at)
 		out, err := d.DefragIPv4WithTimestamp(ip, now)
 		c.Ev("ret", b2i(out != nil), b2i(err != nil))
@@ -474,8 +490,8 @@ func checkOut4(c *sim.Ctx, out *layers.IPv4, in *inst, dgs []*datagram, completi
 	if int(out.Length) != int(out.IHL)*4+len(out.Payload) {
 		c.Fail("reassembly", "length-inconsistent", "DefragIPv4", "returned datagram: Length=%d but IHL*4+payload = %d+%d", out.Length, int(out.IHL)*4, len(out.Payload))
 	}
-	if out.Id != uint16(100+dg.key) || out.Protocol != layers.IPProtocolUDP {
-		c.Fail("reassembly", "header-changed", "DefragIPv4", "id/protocol changed")
+	if out.Id != keyID(dg.key) || out.Protocol != layers.IPProtocolUDP || !out.SrcIP.Equal(keyAddr(dg.key, false)) || !out.DstIP.Equal(keyAddr(dg.key, true)) {
+		c.Fail("reassembly", "header-changed", "DefragIPv4", "id %d protocol %v %v->%v; the fragments had id %d UDP %v->%v", out.Id, out.Protocol, out.SrcIP, out.DstIP, keyID(dg.key), keyAddr(dg.key, false), keyAddr(dg.key, true))
 	}
 	if dg.ihl > 5 {
 		c.Probe("datagram_with_options_reassembled")
